@@ -256,7 +256,10 @@ def handle (op : String) (args : List String) : Option String :=
     pure (actIntStr (Martian.LexerActions.arrListUnguarded k))
   | "mapdim", [n] => do
     let k ← n.toNat?
-    pure (toString (Martian.LexerActions.mapDim k))
+    pure (actIntStr (Martian.LexerActions.mapDim k))
+  | "mapdim0", [n] => do
+    let k ← n.toNat?
+    pure (toString (Martian.LexerActions.mapDimUnguarded k))
   | _, _ => none
 
 end Driver.C08
